@@ -726,9 +726,18 @@ impl Stringify for Value {
                     stringifier: &mut Stringifier<'s, W>,
                     start_location: &Range<Position>,
                     end_location: &Range<Position>,
+                    is_whole_expr: bool,
                 ) -> FmtResult {
                     match expr {
-                        Expression::LitStr { value, location } => {
+                        // (a whitespace-only string literal which is the whole expression stays a
+                        // binding: as static text it would be dropped when parsed again)
+                        Expression::LitStr { value, location }
+                            if !(is_whole_expr
+                                && !value.is_empty()
+                                && value
+                                    .trim_matches(crate::parse::is_template_whitespace)
+                                    .is_empty()) =>
+                        {
                             stringifier.write_token(&escape_html_body(value), None, location)?;
                             return Ok(());
                         }
@@ -758,8 +767,8 @@ impl Stringify for Value {
                             }
                             let split = is_text_piece(left) && is_text_piece(right);
                             if split {
-                                split_expression(&left, stringifier, start_location, location)?;
-                                split_expression(&right, stringifier, location, end_location)?;
+                                split_expression(&left, stringifier, start_location, location, false)?;
+                                split_expression(&right, stringifier, location, end_location, false)?;
                                 return Ok(());
                             }
                         }
@@ -775,6 +784,7 @@ impl Stringify for Value {
                     stringifier,
                     &double_brace_location.0,
                     &double_brace_location.1,
+                    true,
                 )?;
             }
         }
